@@ -125,8 +125,8 @@ MUTANTS += [
     # ---- C13 ------------------------------------------------------------------------------
     dict(name="c13-weights-unnormalised-sum", props=["C13"], edits=[(NS, "    return numpy.average(\n        numpy.average(_amount, axis=dims - 1),\n        weights=q_weights,\n        axis=dims - 2\n    )", "    return numpy.sum(\n        numpy.average(_amount, axis=dims - 1) * q_weights,\n        axis=dims - 2\n    ) / 12.0")]),
     dict(name="c13-volume-order-check-dropped", props=["C13"], edits=[(QA, "        if not numpy.all(numpy.diff(self._volumes) <= 0):", "        if False:")]),
-    dict(name="c13-static-key-not-canonical", props=["C13"], edits=[(ED, "        return c_(res.group(1))", "        return c_(res.group(1)) if key[0] == 'c' else c_(res.group(1)[::-1][:2])")]),
-    dict(name="c13-gamma-mask-by-frequency", props=["C13", "C01"], edits=[(NS, "    clear_gamma_point(_amount)\n", "    _amount[..., 0, :3] = 0 if q_weights[0] == q_weights.min() else _amount[..., 0, :3]\n")]),
+    dict(name="c13-static-key-uppercase-miskeyed", props=["C13"], edits=[(ED, "        return c_(res.group(1))", "        return c_(res.group(1)) if key[0] != 'C' else c_(res.group(1).replace('4', 'x').replace('5', '4').replace('x', '5'))")]),
+    dict(name="c01-gamma-mask-by-weight", props=["C01"], edits=[(NS, "    clear_gamma_point(_amount)\n", "    _amount[..., 0, :3] = 0 if q_weights[0] == q_weights.min() else _amount[..., 0, :3]\n")]),
     # ---- C14 ------------------------------------------------------------------------------
     dict(name="c14-class-level-cache", props=["C14"], edits=[(FM, "    def get_static_modulus(self, key: C_):", "    _cache = {}\n    def get_static_modulus(self, key: C_):\n        if key in FullThermalElasticModulus._cache: return FullThermalElasticModulus._cache[key]\n        FullThermalElasticModulus._cache[key] = self._get_static_modulus(key)\n        return FullThermalElasticModulus._cache[key]\n    def _get_static_modulus(self, key: C_):")]),
     dict(name="c14-writer-rules-mutated", props=["C14"], edits=[(RW, "        _config = self._asdict()\n        if config is not None:\n            _config.update(config)\n\n        convert = convert_unit(_config[\"unit_internal\"], _config[\"unit\"])\n\n        variable = getattr(base, self.prop)\n\n        if \"fname\" in _config:", "        _config = self._asdict()\n        if config is not None:\n            _config.update(config)\n        self.keywords.append(\"seen\")\n\n        convert = convert_unit(_config[\"unit_internal\"], _config[\"unit\"])\n\n        variable = getattr(base, self.prop)\n\n        if \"fname\" in _config:")]),
